@@ -30,6 +30,12 @@ CHECKS = {
  "C19": dict(cat="fault_enumeration", ref="6/C19", tech="fault enumeration (all prefixes, control-byte corruptions, appended garbage, random strings) under the C18 conservation monitor and an exit-status monitor",
    text="every prefix of small valid files of each format and every listed corruption is decoded by the real tool; verdict failed / complete / incomplete, the last being a violation; CPU per case bounded",
    note="failure = exception, non-zero exit, or MAX's documented False result with the output removed"),
+ "C14": dict(cat="exploration", ref="6/C14", tech="interface monitor: RUN sites parsed from real convert() outputs and from the library checked against PARAM/TYPE lines parsed from the current ecb.b09",
+   text="for each emitted program of a construct-covering workload every RUN site is checked for a defined callee, argument count and argument class; record types are compared field for field between prologue and callee; the library's own 130+ RUN sites are checked the same way",
+   note="classes are string / numeric / record as the property states; typing of expressions is coarse (b09ref/static.py)"),
+ "C20": dict(cat="exploration", ref="6/C20", tech="reference BASIC09 interpreter executing the helper procedures from the current ecb.b09 against the Color BASIC definitions; bounded-exhaustive arguments; call sites through convert()",
+   text="ecb_instr, ecb_string and ecb_read_filter are interpreted for every argument tuple inside the stated bounds (exhaustive) and compared with the Color BASIC definition; call sites are converted by the real tool and executed with distinguishable argument roles",
+   note="trusted base: vlib/b09ref (MID$, LEN, VAL, FOR semantics from the manual)"),
 }
 
 def main():
